@@ -315,6 +315,7 @@ class LoopBase(Task):
         self.terms = {}      # role -> term name
         self.D = None
         self.iters = 0
+        self.view = None
         self.dt = g.r(0.05, 2.0, 3)      # a time loop normally keeps its step size
         self.alpha = None                # and its storage coefficient (scalar or field)
 
@@ -323,6 +324,8 @@ class LoopBase(Task):
         s |= set(self.terms.values())
         if isinstance(self.alpha, str):
             s.add(self.alpha)
+        if self.view:
+            s.add(self.view)
         if self.D:
             s.add(self.D)
         return s
@@ -436,11 +439,29 @@ class LoopBase(Task):
     def bc_tick(self, ops):
         """A time-dependent boundary coefficient updated between steps."""
         g = self.g
-        if g.rng.random() < 0.3:
-            b = g.w.ents[self.v].meta["bc"]
-            op = Editor.edit_op(g, b, only_c=g.rng.random() < 0.6)
+        rng = g.rng
+        if self.v not in g.w.ents:
+            return
+        b = g.w.ents[self.v].meta["bc"]
+        u = rng.random()
+        if u < 0.3:
+            op = Editor.edit_op(g, b, only_c=rng.random() < 0.6)
             if op:
                 ops.append(op)
+        elif u < 0.5:
+            # the boundary value is updated through a view the script keeps
+            we = g.w.ents.get(self.view) if self.view else None
+            if we is None or we.meta["b"] != b:
+                m = g.w.ents[b].meta["mesh"]
+                nd = g.nd_of_mesh(m)
+                side = rng.choice([s for s in A.SIDES if A.SIDE_AXIS[s] < nd])
+                self.view = g.fresh("w")
+                ops.append({"k": "view_take", "out": self.view,
+                            "a": {"b": b, "side": side, "coef": "c", "sl": g.slspec(2)}})
+            else:
+                ops.append({"k": "view_write",
+                            "a": {"w": self.view,
+                                  "val": Editor.coef_val(g, we.meta["side"], we.meta["coef"])}})
 
 
 class ImplicitLoop(LoopBase):
